@@ -101,6 +101,12 @@ pub fn jobs(tier: Tier, seed: u64) -> Vec<Job> {
         let env = if var_state.is_empty() { vec![] } else { vec![("BPAFMC_C20", var_state)] };
         out.push(Job { opts: o, alpha: toks(&["--level=1", "--level", "2", "--name=bob", "-s", "--help"]), len: 3, env });
     }
+    // rejected items that hold control characters (they are quoted back in the message: the
+    // colour builds style that fragment)
+    {
+        let o = Opts::new(P::Seq(vec![P::arg(Names::both('p', "port"), Ty::U32).opt(), P::Switch(Names::long("verbose")), P::Guard(P::pos(Ty::U32).bx(), GuardK::Lt10).opt()]));
+        out.push(Job { opts: o, alpha: toks(&["--port=8\t0", "--port", "80\t", "-p", "4\r", "\u{1b}[31m81\u{1b}[0m", "--verb\tose", "--verbose\r", "\u{7}", "11\u{7f}"]), len: 2, env: vec![] });
+    }
     // env-backed flags with the variable set AND the flag typed (switch / req_flag / count, top
     // level and inside a command, also in a cluster)
     for k in 0..3 {
